@@ -33,6 +33,7 @@ type Ledger struct {
 	// (dead error paths); more of them on a later tree means the contract's assumptions or the
 	// callee contracts have become contradictory on those paths (vacuity)
 	Infeasible map[string]map[string]int `json:"infeasible_return_sites"`
+	Feasible   map[string]map[string]int `json:"feasible_return_sites"`
 }
 
 var posSuffix = regexp.MustCompile(`@[A-Za-z0-9_./\-]+\.go:\d+`)
@@ -55,11 +56,17 @@ func propTargets(e *sym.Engine, prop string) []*sym.FnContract {
 			out = append(out, fc)
 			continue
 		}
+		own := false
 		for _, c := range fc.B.Clauses {
 			if sym.HasTag(c.Tags, prop) {
-				out = append(out, fc)
+				own = true
 				break
 			}
+		}
+		// callers of functions whose requires clauses carry the property's tag: the
+		// call-site obligations are the property's
+		if own || e.CallsTagged(fc, prop) {
+			out = append(out, fc)
 		}
 	}
 	return out
@@ -298,6 +305,18 @@ func cmdCheck(args []string) {
 			infeasible[s[:i]]++
 		}
 	}
+	// reachable return sites per function (distinct cover points minus the unreachable ones)
+	feasible := map[string]int{}
+	seenSite := map[string]bool{}
+	for _, cv := range e.Covers {
+		if i := strings.Index(cv.Name, "/cover/return-after"); i > 0 && !seenSite[cv.Name] {
+			seenSite[cv.Name] = true
+			feasible[cv.Name[:i]]++
+		}
+	}
+	for fn, n := range infeasible {
+		feasible[fn] -= n
+	}
 	if li := ledger.Infeasible[*prop]; li != nil && !*writeLedger {
 		var fns []string
 		for fn := range infeasible {
@@ -305,7 +324,9 @@ func cmdCheck(args []string) {
 		}
 		sort.Strings(fns)
 		for _, fn := range fns {
-			if infeasible[fn] > li[fn] {
+			// alarm only if return sites moved from reachable to unreachable: new dead branches
+			// (defensive checks) or merged returns alone are harmless
+			if infeasible[fn] > li[fn] && feasible[fn] < ledger.Feasible[*prop][fn] {
 				p := writeReplay("vacuity-"+fn, map[string]interface{}{"property": *prop, "obligation": fn + "/cover/return-sites", "error": fmt.Sprintf("%d return sites of %s are unreachable under the contract's assumptions (at the pin: %d); obligations on those paths hold vacuously", infeasible[fn], fn, li[fn]), "sites": e.InfeasibleSites})
 				violate(fn+"/cover/return-sites", p, false, "return sites became unreachable under the contracts (vacuity)")
 			}
@@ -327,6 +348,10 @@ func cmdCheck(args []string) {
 			ledger.Infeasible = map[string]map[string]int{}
 		}
 		ledger.Infeasible[*prop] = infeasible
+		if ledger.Feasible == nil {
+			ledger.Feasible = map[string]map[string]int{}
+		}
+		ledger.Feasible[*prop] = feasible
 		b, _ := json.MarshalIndent(ledger, "", " ")
 		_ = os.WriteFile(filepath.Join(*verif, "ledger.json"), b, 0o644)
 	}
